@@ -528,7 +528,10 @@ def expand(prog, f, depth=2, local_only=False, skip_names=()):
     _drop_dead_local_defs(root)
     ast.fix_missing_locations(root)
     # what the inlining made visible (literals where parameters were, pipelines over them) is brought to canonical form as well
+    root = _fold_class_constants(prog, f, root)
+    ast.fix_missing_locations(root)
     root = desugar(root)
+    root = _literal_attr_access(root)   # names that became literal only now (`getattr(ser, "_remove_%s" % "tx")`)
     ast.fix_missing_locations(root)
     return root
 
@@ -752,21 +755,86 @@ def _fold_record_constants(prog, module, root):
     return _literal_attr_access(root)
 
 
+def _fold_const_str(e):
+    """a string built from literals only (`"_remove_%s" % "tx"`, `"a" + "b"`, f"x{'y'}") as the literal it is; other nodes unchanged"""
+    if isinstance(e, ast.BinOp) and isinstance(e.op, ast.Mod) and isinstance(e.left, ast.Constant) and isinstance(e.left.value, str):
+        r = e.right
+        vals = None
+        if isinstance(r, ast.Constant) and isinstance(r.value, (str, int)) and not isinstance(r.value, bool):
+            vals = (r.value,)
+        elif isinstance(r, ast.Tuple) and all(isinstance(x, ast.Constant) and isinstance(x.value, (str, int)) and not isinstance(x.value, bool) for x in r.elts):
+            vals = tuple(x.value for x in r.elts)
+        if vals is not None:
+            try:
+                return ast.copy_location(ast.Constant(value=e.left.value % vals), e)
+            except (TypeError, ValueError):
+                return e
+    if isinstance(e, ast.BinOp) and isinstance(e.op, ast.Add) and all(isinstance(x, ast.Constant) and isinstance(x.value, str) for x in (e.left, e.right)):
+        return ast.copy_location(ast.Constant(value=e.left.value + e.right.value), e)
+    if isinstance(e, ast.JoinedStr) and all(isinstance(v, ast.Constant) or (isinstance(v, ast.FormattedValue) and isinstance(v.value, ast.Constant)
+                                            and isinstance(v.value.value, str) and v.format_spec is None and v.conversion == -1) for v in e.values):
+        return ast.copy_location(ast.Constant(value="".join(v.value if isinstance(v, ast.Constant) else v.value.value for v in e.values)), e)
+    return e
+
+
+def _fold_class_constants(prog, f, root):
+    """`self.K` / `cls.K`, K a class-level table of literals (str / int / tuple of them) that no method ever assigns on an instance,
+    reads as the literal - for the class the function is analysed for (`with_self_class`): a template method driven by a table its
+    subclasses override is specialised to the subclass."""
+    if f.cls is None:
+        return root
+    from .pysrc import Unknown
+
+    cands = {n.attr for n in ast.walk(root) if isinstance(n, ast.Attribute) and isinstance(n.value, ast.Name) and n.value.id in ("self", "cls")
+             and isinstance(n.ctx, ast.Load)}
+    consts = {}
+    for name in cands:
+        a = prog.lookup_attr(f.cls, name)
+        if a is None or prog.lookup(f.cls, name) is not None:
+            continue
+        v = prog.const(a[1], a[0].module, None, a[0])
+        ok = isinstance(v, (str, int)) and not isinstance(v, bool) or (
+            isinstance(v, tuple) and all(isinstance(x, (str, int)) and not isinstance(x, bool) for x in v))
+        if isinstance(v, Unknown) or not ok:
+            continue
+        consts[name] = v
+    if not consts:
+        return root
+    stored = set()
+    for g in prog.all_functions():
+        if g.cls is None or not (g.cls in prog.mro(f.cls) or f.cls in prog.mro(g.cls)):
+            continue
+        for n in ast.walk(g.node):
+            if isinstance(n, ast.Attribute) and isinstance(n.ctx, (ast.Store, ast.Del)) and isinstance(n.value, ast.Name) and n.value.id in ("self", "cls"):
+                stored.add(n.attr)
+    consts = {k: v for k, v in consts.items() if k not in stored}
+
+    class F(ast.NodeTransformer):
+        def visit_Attribute(self, n):
+            self.generic_visit(n)
+            if isinstance(n.value, ast.Name) and n.value.id in ("self", "cls") and isinstance(n.ctx, ast.Load) and n.attr in consts:
+                return ast.copy_location(ast.parse(repr(consts[n.attr]), mode="eval").body, n)
+            return n
+
+    return F().visit(root) if consts else root
+
+
 def _literal_attr_access(root):
     def lit(e):
+        e = _fold_const_str(e)
         return isinstance(e, ast.Constant) and isinstance(e.value, str) and e.value.isidentifier()
 
     class G(ast.NodeTransformer):
         def visit_Call(self, n):
             self.generic_visit(n)
             if isinstance(n.func, ast.Name) and n.func.id == "getattr" and len(n.args) == 2 and not n.keywords and lit(n.args[1]):
-                return ast.copy_location(ast.Attribute(value=n.args[0], attr=n.args[1].value, ctx=ast.Load()), n)
+                return ast.copy_location(ast.Attribute(value=n.args[0], attr=_fold_const_str(n.args[1]).value, ctx=ast.Load()), n)
             return n
 
         def visit_Expr(self, st):
             v = st.value
             if isinstance(v, ast.Call) and isinstance(v.func, ast.Name) and v.func.id == "setattr" and len(v.args) == 3 and not v.keywords and lit(v.args[1]):
-                return ast.copy_location(ast.Assign(targets=[ast.Attribute(value=v.args[0], attr=v.args[1].value, ctx=ast.Store())],
+                return ast.copy_location(ast.Assign(targets=[ast.Attribute(value=v.args[0], attr=_fold_const_str(v.args[1]).value, ctx=ast.Store())],
                                                     value=self.visit(v.args[2]), type_comment=None), st)
             return self.generic_visit(st)
 
